@@ -116,12 +116,38 @@ def end_to_end(ctx, rng):
         for i, st in enumerate(chunk):
             c.add_method("s%d" % i, "Ljava/lang/String;", (), W.ACC_PUBLIC | W.ACC_STATIC, W.Code(1, 0, 0, [("const-string", 0, W.Str(st)), ("return-object", 0)]))
             c.add_field("f%d" % i, "Ljava/lang/String;", W.ACC_PUBLIC | W.ACC_STATIC | W.ACC_FINAL, init=W.EV(W.V_STRING, st))
+        # a String constant next to a NUMBER of the same spelling in one call / one array store ("7" and 7): each operand keeps its own kind
+        numlike = ["0", "1", "7", "12", "-1", "100"] if base == 0 else []
+        two = W.Mth("Ls/K%d;" % base, "two", "Ljava/lang/String;", ("Ljava/lang/String;", "I"))
+        if numlike:
+            c.add_method("two", "Ljava/lang/String;", ("Ljava/lang/String;", "I"), W.ACC_PUBLIC | W.ACC_STATIC | W.ACC_NATIVE, None)
+        for i, st in enumerate(numlike):
+            for order in (0, 1):
+                load = [("const-string", 0, W.Str(st)), ("const/16", 1, int(st))]
+                c.add_method("n%d_%d" % (i, order), "Ljava/lang/String;", (), W.ACC_PUBLIC | W.ACC_STATIC,
+                             W.Code(2, 0, 2, (load if order == 0 else load[::-1]) + [("invoke-static", [0, 1], two), ("move-result-object", 0), ("return-object", 0)]))
         try:
             d, dx = c21.load_dad(W.write_dex(m))
             src = d.get_class("Ls/K%d;" % base).get_source()
         except Exception as e:
             ctx.violation("e2e-decompile-raises", "decompiling a class of const-string methods raises", {"exc": exc_str(e)})
             continue
+        for i, st in enumerate(numlike):
+            for order in (0, 1):
+                ctx.ev()
+                ctx.count("calls_with_a_string_and_a_number_of_the_same_spelling")
+                mm = re.search(r" n%d_%d\(\)\s*\{\s*return [^\n]*?two\(([^\n]*), ([^\n]*?)\);\s*\n    \}" % (i, order), src)
+                if not mm:
+                    ctx.violation("e2e-call-not-printed", "a method `return two(<string>, <int>);` is not printed in that form", {"string": st, "source": src[-600:]})
+                    continue
+                a1, a2 = mm.group(1).strip(), mm.group(2).strip()
+                try:
+                    ok = J.jls_decode_string_literal(a1) == J.utf16_units(st) and int(a2, 0) == int(st)
+                except Exception:
+                    ok = False
+                if not ok:
+                    ctx.violation("e2e-string-and-number-of-the-same-spelling-mixed-up", "in a call taking the String constant \"N\" and the int N the printed arguments are not a string literal and a number",
+                                  {"string": st, "printed": [a1[:60], a2[:60]], "loaded_first": "string" if order == 0 else "number"})
         for i, st in enumerate(chunk):
             ctx.ev()
             ctx.count("const_strings_decompiled")
